@@ -85,7 +85,7 @@ func genCase(idents bool) func(t *rapid.T) Case {
 		c := Case{Dialect: d, Scenario: rapid.SampledFrom([]string{"create", "create", "drop", "modify"}).Draw(t, "scenario"),
 			Indent: rapid.SampledFrom([]string{"", "  ", "\t"}).Draw(t, "indent"), Formatter: rapid.SampledFrom(formatters).Draw(t, "formatter")}
 		if c.Formatter == "atlas" {
-			c.Delimiter = rapid.SampledFrom([]string{"", "", ";;", "\n\n", "$$", "//"}).Draw(t, "delimiter")
+			c.Delimiter = rapid.SampledFrom([]string{"", "", ";;", "\n\n", "$$", "//", "\t$$", ";\t;", "\n--\tend\n", "\r\n\r\n"}).Draw(t, "delimiter")
 			c.Checkpoint = rapid.IntRange(0, 3).Draw(t, "checkpoint") == 0
 		}
 		used := map[string]bool{}
